@@ -17,7 +17,7 @@ _T = "SE.Proofs.C08."
 THEOREMS = [_T + n for n in [
     "C08_clips", "C08_clips_pairs", "C08_cover", "C08_index_faithful", "C08_index_faithful_annotations",
     "C08_pairs_overlap_report_affinity_score", "C08_unpaired_zero", "C08_geometryless_unpaired",
-    "C08_matcher_contract_checked", "C08_clip_score_is_mean", "C08_means", "C08_scores_in_range", "C08_empty"]]
+    "C08_matcher_contract_checked", "C08_holds_cover_sound", "C08_holds_cover_model", "C08_clip_score_is_mean", "C08_means", "C08_scores_in_range", "C08_empty"]]
 LEVEL_TEXT = ("Lean theorems over the model of evaluate_clip / sound_event_detection hold for all inputs: evaluated clips = "
               "predictions whose clip id is annotated, in order; under the matcher's cover contract every annotated and "
               "predicted sound event (with or without geometry) is in exactly one match; the filtered->original index map is "
@@ -122,12 +122,14 @@ def _holds_detection_inner(ctx, inp, io):
                                          "m": sum(1 for e in ae if e["geom"] is not None), "matcher": m})
         ctx.contract("MatcherCover", ok, inp, m, "match_geometries does not cover its inputs exactly once "
                                                  "with affinities in [0,1] (0 on one-sided entries)")
-        srcs = sorted(x["src"] for x in c["matches"] if x["src"] is not None)
-        tgts = sorted(x["tgt"] for x in c["matches"] if x["tgt"] is not None)
-        if srcs != list(range(len(pe))):
-            return f"predicted sound events are not each in exactly one match: sources {srcs} of {len(pe)} (clip {c['clip']})"
-        if tgts != list(range(len(ae))):
-            return f"annotated sound events are not each in exactly one match: targets {tgts} of {len(ae)} (clip {c['clip']})"
+        # "every annotated and every predicted sound event appears in exactly one match", through the
+        # Lean-side statement whose meaning is fixed by C08_holds_cover_sound
+        if not ctx.model("holds_cover", {"n_pred": len(pe), "n_ann": len(ae),
+                                         "matches": [[x["src"], x["tgt"]] for x in c["matches"]]}):
+            srcs = sorted(x["src"] for x in c["matches"] if x["src"] is not None)
+            tgts = sorted(x["tgt"] for x in c["matches"] if x["tgt"] is not None)
+            return (f"sound events are not each in exactly one match: sources {srcs} of {len(pe)}, "
+                    f"targets {tgts} of {len(ae)} (clip {c['clip']})")
         scores = []
         for x in c["matches"]:
             if x["src"] is None and x["tgt"] is None:
